@@ -1,7 +1,7 @@
 #!/bin/sh
 # usage: run_mutant.sh <patch> <govc args...>   — applies patch to a scratch copy of /repo and runs govc on it
 set -e
-patch="$1"; shift
+patch=$(readlink -f "$1"); shift
 d=$(mktemp -d "${TMPDIR:-/tmp}/verif-mut.XXXXXX")
 trap 'rm -rf "$d"' EXIT
 rsync -a --exclude .git /repo/ "$d/"
